@@ -31,8 +31,13 @@ def msg_class(msg):
     return (m.group(1), m.group(2).strip()[:40]) if m else ("", msg[:40])
 
 
+def build_dd_debug(ctx):
+    """the same harness in the dev profile: debug assertions and overflow checks of /repo are active"""
+    return vf.cargo_build(["h_dd"], profile="debug")["h_dd"]
+
+
 def run_dd(ctx, props, cases, rule, allowed_axioms=(), drv_args=(), env=None, assumptions=(), extra_cov=None,
-           nshards=16, proofs=True, max_reports=2, sig_extra="", write_ev=True):
+           nshards=16, proofs=True, max_reports=2, sig_extra="", write_ev=True, debug_cases="auto"):
     """Common body of the DD checks: proof gate, build, sharded lock-step run, shrink + report,
     evidence."""
     if proofs:
@@ -52,6 +57,22 @@ def run_dd(ctx, props, cases, rule, allowed_axioms=(), drv_args=(), env=None, as
     ok, bad, digests = vf.lockstep_sharded(ctx, binp, drv, cases, nshards=nshards, env=env, drv_args=args)
     ctx.digests = digests
     by_id = {h.split()[0]: (h, ops) for h, ops in cases}
+    bin_of = {}
+    if isinstance(debug_cases, str):
+        debug_cases = list(cases[len(corpus)::8])      # default: every eighth generated case
+    if debug_cases is not None:
+        # second pass on a debug-profile build (debug_assert!, overflow checks): the corpus and the given
+        # cases; ids get a "dbg-" prefix so that reports and replays name the profile
+        binp_dbg = build_dd_debug(ctx)
+        dcases = [("dbg-" + h, ops) for h, ops in corpus + list(debug_cases)]
+        ok2, bad2, _ = vf.lockstep_sharded(ctx, binp_dbg, drv, dcases, nshards=nshards, env=env, drv_args=args, tag="-dbg")
+        ok += ok2
+        bad = list(bad) + list(bad2)
+        ctx.add_stat("debug_profile_cases", len(dcases))
+        for h, ops in dcases:
+            by_id[h.split()[0]] = (h, ops)
+            bin_of[h.split()[0]] = binp_dbg
+        cases = cases + dcases
     seen = set()
     for cid, msg in bad:
         cls = msg_class(msg)
@@ -61,7 +82,7 @@ def run_dd(ctx, props, cases, rule, allowed_axioms=(), drv_args=(), env=None, as
         header, ops = by_id[cid]
         kind = "prop" if "kind=prop" in msg else "corr"
         small, smsg = vf.shrink_case(
-            ctx, binp, drv, header, ops, kind, env=env, drv_args=args, budget=120,
+            ctx, bin_of.get(cid, binp), drv, header, ops, kind, env=env, drv_args=args, budget=120,
             protect=lambda o: o.startswith("VARS"), accept=lambda m2, c=cls: msg_class(m2) == c)
         smsg = smsg or msg
         hk = " ".join(t for t in header.split()[1:] if t.split("=")[0] in ("kind", "threads"))
@@ -70,7 +91,7 @@ def run_dd(ctx, props, cases, rule, allowed_axioms=(), drv_args=(), env=None, as
         vf.report_violation(
             ctx, sig,
             {"stage": "correspondence", "kind": kind, "case_header": header, "ops": small, "verdict": smsg,
-             "drv_args": args, "replay_cmd": f"./check {ctx.pid} --replay <this file>",
+             "drv_args": args, "profile": "debug" if cid in bin_of else "release", "replay_cmd": f"./check {ctx.pid} --replay <this file>",
              "theorem_or_relation": f"{ctx.pid}: see coq/Props/{ctx.pid}.v; driver relation named in the verdict"},
             nfif=(kind != "prop"))
     ctx.samples = [{"case": h, "ops": ops[:12] + (["..."] if len(ops) > 12 else [])}
@@ -95,6 +116,8 @@ def replay_dd(ctx, path):
     import json
     binp, drv = build_dd(ctx)
     r = json.load(open(path))
+    if r.get("profile") == "debug":
+        binp = build_dd_debug(ctx)
     f = os.path.join(ctx.workdir, "replay.txt")
     vf.write_cases(f, [(r["case_header"], r["ops"])])
     ok, bad = vf.lockstep(ctx, binp, drv, f, tag="-replay", drv_args=r.get("drv_args", []))
